@@ -705,7 +705,11 @@ func containerFieldsOf(m ssa.Value, owner string, pkg *ssa.Package, depth int) m
 func c17R7(p *engine.Prog, r *engine.Report) {
 	resetCompletenessRule(p, r, "C17-R7", "core/ceremony", "ValidationCeremony", "completeEpoch", map[string]string{},
 		"the next epoch's ceremony starts with data of the finished one (candidates, lotteries, sent-flags, cached results): its outcome depends on what this node did last epoch, not only on the chain")
-	r.Floor("C17-R7", 12, "17 per-epoch fields on the pinned tree")
+	resetCompletenessRule(p, r, "C17-R7", "core/appstate", "EvidenceMap", "Clear", map[string]string{
+		"shortSessionTime":     "set again by completeEpoch right after Clear (SetShortSessionTime)",
+		"shortSessionDuration": "set again by completeEpoch right after Clear (SetShortSessionTime)",
+	}, "evidence (answers / keys seen in time) of the finished epoch counts in the next one")
+	r.Floor("C17-R7", 12, "15 ceremony fields + evidence sets on the pinned tree")
 }
 
 // condSig renders the comparisons on a value of named type tname that control block b
